@@ -26,7 +26,7 @@ def _timeouts(draw):
     return {str(t): draw(_st.sampled_from([0.13, 0.27, 0.41])) for t in range(4) if draw(_st.booleans())}
 
 
-P = Profile(timeouts=_timeouts(), cleanup=0.3, par=0.12, preload=4, watch=True, actor_ops=['disp', 'burst', 'dispany', 'sleep', 'await', 'yield'], maxdepth=[2, 3], wild=0.1, fwd=0.25, modes=['await', 'await', 'await', 'later', 'ff'], raises=0.1, warm=[True, False, False])
+P = Profile(shadow=0.1, timeouts=_timeouts(), cleanup=0.3, par=0.12, preload=4, watch=True, actor_ops=['disp', 'burst', 'dispany', 'sleep', 'await', 'yield'], maxdepth=[2, 3], wild=0.1, fwd=0.25, modes=['await', 'await', 'await', 'later', 'ff'], raises=0.1, warm=[True, False, False])
 
 
 def budget(tier):
